@@ -332,3 +332,41 @@ func VH_c09_private_replace() {
 	vAssert(r.unchanged(), "producing a peer's copy altered the stored route")
 	vReach("end")
 }
+
+// the eBGP copy under remove-private-as: the option acts on the path as learned, the local AS is
+// then prepended exactly once - also when the local AS is itself a private number
+func VH_c09_export_private() {
+	localAS := []uint32{64512, 100, 4200000001}[vChoice("local_as", 3)]
+	isPriv := func(a uint32) bool { return 64512 <= a && a <= 65534 || 4200000000 <= a && a <= 4294967294 }
+	a, b := vU32("as_a"), vU32("as_b")
+	vAssume(a != 0 && b != 0)
+	opt := []oc.RemovePrivateAsOption{oc.REMOVE_PRIVATE_AS_OPTION_ALL, oc.REMOVE_PRIVATE_AS_OPTION_REPLACE}[vChoice("opt", 2)]
+	routerID := netip.AddrFrom4([4]byte{1, 1, 1, 1})
+	g := &oc.Global{Config: oc.GlobalConfig{As: localAS, RouterId: routerID}}
+	info := &PeerInfo{AS: 300, LocalAS: localAS, LocalID: routerID, LocalAddress: netip.AddrFrom4([4]byte{192, 0, 2, 1}), Address: netip.AddrFrom4([4]byte{192, 0, 2, 9}),
+		PeerType: oc.PEER_TYPE_EXTERNAL, RemovePrivateAs: opt}
+	nh, _ := bgp.NewPathAttributeNextHop(netip.AddrFrom4([4]byte{10, 0, 9, 9}))
+	attrs := []bgp.PathAttributeInterface{bgp.NewPathAttributeOrigin(0),
+		bgp.NewPathAttributeAsPath([]bgp.AsPathParamInterface{bgp.NewAs4PathParam(bgp.BGP_ASPATH_ATTR_TYPE_SEQ, []uint32{a, b})}), nh}
+	src := &PeerInfo{AS: a, LocalAS: localAS, ID: netip.AddrFrom4([4]byte{9, 9, 9, 9}), Address: netip.AddrFrom4([4]byte{10, 0, 9, 9})}
+	p := &Path{info: &originInfo{nlri: vNlri4(10, 1, 0, 0, 16), nlriString: "10.1.0.0/16", source: src}, pathAttrs: attrs, family: bgp.RF_IPv4_UC}
+	out := UpdatePathAttrs(c14logger(), g, info, p)
+	want := []uint32{localAS}
+	for _, x := range []uint32{a, b} {
+		switch {
+		case !isPriv(x):
+			want = append(want, x)
+		case opt == oc.REMOVE_PRIVATE_AS_OPTION_REPLACE:
+			want = append(want, localAS)
+		}
+	}
+	got := out.GetAsList()
+	vAssert(len(got) == len(want), "eBGP copy under remove-private-as: the AS_PATH is not the local AS once followed by the learned path without (or with replaced) private numbers")
+	for i := range want {
+		vAssert(got[i] == want[i], "eBGP copy under remove-private-as: the AS_PATH is not the local AS once followed by the learned path without (or with replaced) private numbers")
+	}
+	if isPriv(localAS) {
+		vReach("private_local_as")
+	}
+	vReach("end")
+}
